@@ -279,6 +279,10 @@ func genRetry(p proto, t *simrt.Tape, tier string) *ccCfg {
 		sp.ctxAt = sp.startDelay + T*time.Duration((int64(1)<<uint(k+2))-1) + ms(1)/4
 		bound = sp.ctxAt
 	}
+	if sp.ck == ctxBackground && cfg.tries > 0 && t.Coin(1, 4) {
+		cfg.slowWrite = true
+		bound += T * 4 * time.Duration(cfg.tries)
+	}
 	cfg.span = bound + 2*T
 	cfg.callers = [][]callSpec{{sp}}
 	if cfg.tries >= 0 && cfg.tries <= 3 && t.Coin(1, 3) {
